@@ -199,4 +199,54 @@ theorem selected_cases (s : Sys F) (pkt : Bytes) (now : Nat) :
     · exact Or.inl rfl
   · exact Or.inl rfl
 
+/-! ## The routed link is eligible (Sys-level clause of C04) -/
+
+/-- Writing a selection result back and reading the selection view again gives that result, provided the
+pass kept the frame (`C12_frame`). -/
+theorem toSLink_absorb (l : FLink F) (sl : SLink F) (h : frame sl = frame l.toSLink) :
+    (l.absorb sl).toSLink = sl := by
+  cases sl
+  simp only [frame, FLink.toSLink, Frame.mk.injEq] at h
+  obtain ⟨h1, h2, h3, h4, h5, h6, h7, h8, h9, h10, h11, h12, h13, h14, h15, h16, h17, h18, h19, h20, h21, h22, h23⟩ := h
+  subst h1 h2 h3 h4 h5 h6 h7 h8 h9 h10 h11 h12 h13 h14 h15 h16 h17 h18 h19 h20 h21 h22 h23
+  rfl
+
+/-- The link that receives the unique copy is eligible in the state the selection pass leaves behind. -/
+theorem selected_eligible (s : Sys F) (pkt : Bytes) (now sel : Nat) (h : selected s pkt now = some sel) :
+    ∃ l1, (runSelect s now).1.links[sel]? = some l1 ∧ l1.core.connected = true ∧ l1.schedulable = true ∧
+      l1.isTimedOut now = false ∧ l1.stallGated = false := by
+  rcases selected_cases s pkt now with h0 | ⟨-, -, -, b, hb1, hb2⟩
+  · rw [h0, runSelect_snd] at h
+    obtain ⟨c, hc, e1, e2, e3, e4⟩ := Props.C04.C04_selector_eligible _ _ _ _ _ h
+    have hfr := Props.C12.C12_frame (s.links.map FLink.toSLink) s.lastSelected now s.cfg
+    have hlen : sel < s.links.length := by
+      have := (List.getElem?_eq_some_iff.1 hc).1
+      rw [hfr.1] at this; simpa using this
+    have hl : s.links[sel]? = some s.links[sel] := List.getElem?_eq_getElem hlen
+    have hfs : frame c = frame s.links[sel].toSLink := by
+      have := congrArg (fun (x : List (Frame F)) => x[sel]?) hfr.2
+      simp only [List.getElem?_map, hc, hl, Option.map_some, Option.some.injEq] at this
+      exact this
+    have hz : (s.links.zip (selectIdx (s.links.map FLink.toSLink) s.lastSelected now s.cfg).1)[sel]? =
+        some (s.links[sel], c) := List.getElem?_zip_eq_some.2 ⟨hl, hc⟩
+    refine ⟨s.links[sel].absorb c, by rw [runSelect_links, List.getElem?_map, hz]; rfl, ?_⟩
+    have hts := toSLink_absorb s.links[sel] c hfs
+    refine ⟨?_, ?_, ?_, ?_⟩
+    · have := congrArg SLink.connected hts; rw [e4] at this; exact this
+    · have := congrArg (fun x => Select.schedulable x) hts
+      simp only [e1] at this
+      simpa [FLink.schedulable, Select.schedulable, FLink.toSLink] using this
+    · unfold FLink.isTimedOut; rw [hts]; exact e2
+    · have := congrArg SLink.stallGated hts; rw [e3] at this; exact this
+  · rw [hb1] at h; cases h
+    obtain ⟨c, hc, e1, e2, e3, e4⟩ := Props.C04.C04_override_eligible _ _ _ hb2
+    rw [List.getElem?_map] at hc
+    cases hl1 : (runSelect s now).1.links[sel]? with
+    | none => rw [hl1] at hc; cases hc
+    | some l1 =>
+      rw [hl1] at hc
+      simp only [Option.map_some, Option.some.injEq] at hc
+      subst hc
+      exact ⟨l1, rfl, e1, by simpa [FLink.schedulable, Select.schedulable, FLink.toSLink] using e2, e3, e4⟩
+
 end Srtla.Sys
